@@ -20,6 +20,27 @@ CLAIMS = {
    text="History independence reduced to structural conditions: no call path from a critical section re-enters the index mutex (no hang); no 'not implemented' panic or empty stub is reachable from the public API; ShapeIndex.Reset assigns every field an operation can change; every EdgeQuery field a query writes is re-assigned before it is read in the next call, reset, or a named cache; configured options are only modified through copies and restored on every exit; every Loop/Polygon creation site establishes its index and the zero-value Polygon is nil-guarded; iterators apply pending updates before reading; no package-level state is written after init.",
    note="Trusts go/ssa and the VTA call graph; tables of argument-contract and defensive panics are confirmed by reading. Known findings D3/D18 are listed in known_findings.json. Does not decide equality of answers across histories.",
    design="DESIGN.md section 3 R-LOCK(c)/R-PANIC/R-RESET/R-SCRATCH/R-OPTS/R-INIT/R-SYNCED/R-GLOBAL, section 4 C13"),
+
+ "C06": dict(
+   technique="static analysis: symbolic summaries (ordered decision trees over linear index terms) of sibling Shape accessors compared for equality; inclusive-range comparison discipline over go/ssa",
+   text="Decides two structural clauses for every Shape implementation and every cell-range comparison in the library: (R-SIBSHAPE) Edge, ChainEdge, Chain and ChainPosition denote one edge set - ChainEdge(i,j)=Edge(Start(i)+j), Start(ChainPosition(e))+Offset=e, Edge(e)=ChainEdge(ChainPosition(e)) - by comparing normalised symbolic summaries of the accessor bodies; (R-RANGE) every ordered comparison against RangeMin()/RangeMax() treats the leaf range as inclusive, so the query-side cell location cannot lose or gain the boundary leaf. Obligations that need reasoning about a search loop are reported as not decided.",
+   note="Trusts go/types and go/ssa. Does not decide that every edge is listed in every padded index cell it meets (clipping arithmetic) nor the crossing tests. Polygon and multi-loop LaxPolygon accessor obligations that depend on search loops are not decided.",
+   design="DESIGN.md section 3 R-SIBSHAPE/R-RANGE, section 4 C06"),
+ "C07": dict(
+   technique="static analysis: control-dependence (edge dominance) and data-flow role checks over go/ssa for the loop-relation walk; bound/sub-region-bound pairing on all paths",
+   text="Decides the structural contract the relation algorithms rest on: a cell centre is accepted as a crossing only when it matches both crossing targets with the right polarity and on the right loop's cell; the three relations return their documented target pairs (all six combinations of containsCenterMatches folded); the two loopCrossers mirror each other and pass A's wedge first; containment is rejected only through the sub-region bound, which is rewritten after every write of the bound.",
+   note="Trusts go/ssa. Does not decide the set-algebra laws on concrete pairs, the wedge predicates, or loop nesting discovery.",
+   design="DESIGN.md section 3 R-CONJ/R-BOUNDGUARD/R-PAIR, section 4 C07"),
+ "C08": dict(
+   technique="static analysis: loop-cycle, membership-set, family-polarity, post-processing pass-through and argument-pairing rules over go/ssa; per-field must-define-before-use and options freshness",
+   text="Decides the structural conditions under which the optimized search can equal the exhaustive scan: enumeration loops repeat their action (no stray break), the duplicate set is consulted with the right polarity and fed, min/max target families never mix and reflect the cap centre exactly in the max family, every findEdges path sorts, uniques and truncates, the queue key is conservative exactly when an error is permitted, each processOrEnqueue call passes a cell id with its own index cell, and per-call state/options do not leak between calls.",
+   note="Trusts go/ssa and the VTA call graph; the (loop, action) pair table and the family tables are confirmed by reading. Does not decide that Cell.Distance*/MaxDistance* are true bounds.",
+   design="DESIGN.md section 3 R-CYCLE/R-SETUSE/R-POLARITY/R-QUERYFLOW/R-SCRATCH/R-OPTS, section 4 C08"),
+ "C10": dict(
+   technique="static analysis: path-sensitive pairing of bound / sub-region-bound writes and rejection-guard operand check over go/ssa",
+   text="Narrow claim: decides that every write of Loop.bound / Polygon.bound is followed on every non-error path by subregionBound = ExpandForSubregions(bound) (or the same full/empty rectangle), and that containment is never rejected through the plain bound. This is the 'bound grown for sub-regions' clause only.",
+   note="Does not decide the sufficiency of the rect-bounder error constants, cap/cell bounds, or convex hulls (numeric).",
+   design="DESIGN.md section 3 R-PAIR/R-BOUNDGUARD, section 4 C10"),
 }
 
 NOT_APPLICABLE = {
